@@ -686,7 +686,11 @@ def local_signatures(fi, params, surviving=None, keep=(), helper=None):
             if d.name not in first or ln < first[d.name][0]:
                 first[d.name] = (ln, d)
     sigs = {}
-    _sig_consts = module_constants(fi.module) if getattr(fi, 'module', None) is not None else {}
+    _sig_consts = dict(module_constants(fi.module)) if getattr(fi, 'module', None) is not None else {}
+    try:
+        _sig_consts.update(class_constants(fi, helper))      # self.NAME / Class.NAME
+    except Exception:
+        pass
 
     def sig(name, visiting):
         if name in sigs:
